@@ -1,6 +1,7 @@
 import Tibc.Props.C20
 import Tibc.Expect.Bsc
 import Tibc.Expect.Eth
+import Tibc.Expect.Determinism
 #print axioms Tibc.C20.any_perm
 #print axioms Tibc.C20.insertAsc_pairwise
 #print axioms Tibc.C20.vset_pairwise
